@@ -103,7 +103,10 @@ def bounded(params):
         X, Y = nrng.rand(*shape) < 0.4, nrng.rand(*shape) < 0.4
         if X.any() and Y.any():
             evals += 1
-            bad = check_pair(X, Y)
+            try:
+                bad = check_pair(X, Y)
+            except Exception as e:
+                bad = [f"raised {type(e).__name__}: {e}"[:160]]
             if bad and len(failures) < 5:
                 failures.append({"input": {"X": X.astype(int).tolist(), "Y": Y.astype(int).tolist()}, "problems": bad[:3], "replay_kind": "c07.assd"})
     return {"evaluations": evals, "distinct_nontrivial": nontriv, "failures": failures, "exhaustive": tier != "quick",
